@@ -22,6 +22,15 @@
  *   T<c>:<k>        type-mismatch / bad-key attribute calls
  *   X<c>:<o>        kdump_get_addrxlat -> obj[o] holds ctx+sys references
  *   I<c>            iterate over all attributes
+ *   Z<m>            order of the final teardown (0..5: objects before / after the contexts,
+ *                   contexts in ascending / descending order, objects both before and after)
+ *   Y<c>:<p>        set file.mmap_policy (0 never, 1 always, 2 try)
+ *   K<c>:<addr>     read a page that is known to be good: must succeed (a cache entry
+ *                   left pinned by an earlier failure shows up here as KDUMP_ERR_BUSY)
+ *   J<c>:<k>        an attribute update that the library must REJECT (pre-set hook refusal
+ *                   or invalid value) or accept, of every value type, on attributes with and
+ *                   without a previous value; per-call accounting: a rejected call must not
+ *                   leave any block allocated that it allocated itself
  * After EVERY op: sum of cache-entry reference counts (page cache and both file
  * caches, hooks/02-cache-refsum.patch) of every live context must be 0, no lock may
  * be held, the caller's descriptors must be where they were.  At the end everything
@@ -94,6 +103,12 @@ static unsigned long refsum_ctx(kdump_ctx_t *c, char *which)
 	return s;
 }
 
+/* the only thing a failed call may keep: a grown error message buffer of the context */
+static int is_errbuf(void *p, kdump_ctx_t *c)
+{
+	return c && p == (void *)c->err.dyn;
+}
+
 static void drop_obj(int o)
 {
 	static unsigned char bits[0x3000 / 8]; kdump_addr_t idx = 0;
@@ -116,6 +131,7 @@ static void drop_obj(int o)
 	obj[o].kind = 0;
 }
 
+static int teardown_mode;
 static void do_op(char *op)
 {
 	char *f[6]; int nf = 0; char *save = NULL, *p;
@@ -124,6 +140,7 @@ static void do_op(char *op)
 	kdump_status st = KDUMP_OK;
 	for (p = strtok_r(op + 1, ":", &save); p && nf < 6; p = strtok_r(NULL, ":", &save)) f[nf++] = p;
 	c = nf > 0 ? atoi(f[0]) % NCTX : 0;
+	if (kind == 'Z') { teardown_mode = nf > 0 ? atoi(f[0]) : 0; return; }
 	if (kind != 'N' && kind != 'B' && !ctx[c]) return;         /* context not alive: no-op */
 	switch (kind) {
 	case 'N':
@@ -214,6 +231,47 @@ static void do_op(char *op)
 		LIB(st = kdump_get_addrxlat(ctx[c], &ax, &sys));
 		if (st == KDUMP_OK) { obj[o].kind = 3; obj[o].ax = ax; obj[o].sys = sys; }
 		break; }
+	case 'Y':
+		LIB(st = kdump_set_number_attr(ctx[c], "file.mmap_policy", strtoul(f[1], NULL, 0)));
+		break;
+	case 'K': {
+		unsigned char buf[64]; size_t l = sizeof buf;
+		LIB(st = kdump_read(ctx[c], KDUMP_MACHPHYSADDR, strtoull(f[1], NULL, 0), buf, &l));
+		if (st != KDUMP_OK)
+			fail("good page at %s cannot be read: status %d (%s)", f[1], (int)st, kdump_get_err(ctx[c]));
+		break; }
+	case 'J': {
+		unsigned long before = oom_serial, j;
+		int k = atoi(f[1]) % 8, must_reject = 1;
+		kdump_attr_t a;
+		switch (k) {
+		case 0: LIB(st = kdump_set_string_attr(ctx[c], "addrxlat.ostype", "hurd")); break;
+		case 1: LIB(st = kdump_set_string_attr(ctx[c], "addrxlat.ostype", "a-rather-long-unsupported-operating-system-name")); break;
+		case 2: LIB(st = kdump_set_string_attr(ctx[c], "addrxlat.ostype", "linux")); must_reject = 0; break;
+		case 3: LIB(st = kdump_set_string_attr(ctx[c], "addrxlat.ostype", "xen")); must_reject = 0; break;
+		case 4: LIB(st = kdump_set_number_attr(ctx[c], "cache.size", 0x100000000ULL)); break;
+		case 5: LIB(st = kdump_set_number_attr(ctx[c], "arch.page_size", 3000)); break;
+		case 6: {	/* a blob where a string is expected: the caller keeps its reference */
+			kdump_blob_t *b;
+			LIB(b = kdump_blob_new_dup("blob", 4));
+			a.type = KDUMP_BLOB; a.val.blob = b;
+			LIB(st = kdump_set_attr(ctx[c], "addrxlat.ostype", &a));
+			LIB(kdump_blob_decref(b));
+			break; }
+		case 7: {	/* a string where a blob is expected */
+			a.type = KDUMP_STRING; a.val.string = "not a blob";
+			LIB(st = kdump_set_attr(ctx[c], "linux.vmcoreinfo.raw", &a));
+			break; }
+		}
+		if (must_reject && st == KDUMP_OK) fail("update %d that must be rejected was accepted", k);
+		if (st != KDUMP_OK)
+			for (j = 0; j < oom_hiwater; ++j)
+				if (oom_tab[j].p && oom_tab[j].serial > before && !is_errbuf(oom_tab[j].p, ctx[c])) {
+					fail("rejected attribute update %d left a block allocated (site %lx)",
+					     k, (unsigned long)oom_tab[j].site);
+					break;
+				}
+		break; }
 	case 'I': {
 		kdump_attr_iter_t it;
 		LIB(st = kdump_attr_iter_start(ctx[c], "linux", &it));
@@ -278,8 +336,8 @@ static void run_seq(char *line)
 	}
 	/* drop everything that is still alive: objects first for even cases, contexts first otherwise */
 	if (!problem[0]) {
-		if (k % 2 == 0) for (i = 0; i < NOBJ; ++i) if (obj[i].kind) drop_obj(i);
-		for (i = 0; i < NCTX; ++i) { int j = (k % 3) ? i : NCTX - 1 - i; if (ctx[j]) { LIB(kdump_free(ctx[j])); ctx[j] = NULL; } }
+		if (teardown_mode % 2 == 0) for (i = 0; i < NOBJ; ++i) if (obj[i].kind) drop_obj(i);
+		for (i = 0; i < NCTX; ++i) { int j = (teardown_mode % 3) ? i : NCTX - 1 - i; if (ctx[j]) { LIB(kdump_free(ctx[j])); ctx[j] = NULL; } }
 		for (i = 0; i < NOBJ; ++i) if (obj[i].kind) drop_obj(i);
 		if (oom_lock_underflow != underflow_seen && !strchr(underflow_ops, 'Z'))
 			underflow_ops[strlen(underflow_ops)] = 'Z';
